@@ -1,5 +1,6 @@
 import DracoProofs.Animation
 import DracoProofs.AnimCodec
+import DracoProofs.GeneratedTable
 /-
   C20 — keyframe animations survive the codec frame by frame, track by track.
 
@@ -972,6 +973,16 @@ example : ∃ bs r st d,
 /- `animation_quantized_track`: its hypotheses (`encodeGeometry … = some bs` with quantization bits on a
    float track) involve the executable `Float32` quantizer, which the kernel cannot evaluate; witnessed by
    the driver cases of C20 with `q<track>=bits` (the op `anim` + model decode). -/
+
+/-! ## the probability table of the symbol coder that carries every animation attribute -/
+open Generated in
+/-- the size-class branch of `RAnsSymbolEncoder::EncodeTable`, translated mechanically from clang's AST of /repo on
+    every run: `return false` exactly for `prob ≥ 2^22`, otherwise 0/1/2 extra bytes for `prob < 2^6`, `< 2^14`, else
+    (the classes the model's `encTableGo` uses: `Draco.table_entry_uses_sizeClass` in C08) -/
+theorem source_tableSizeClass_is_model (p : Int) (hp : U32 p) :
+    RAnsSymbolEncoder.EncodeTable_sizeClass p = sizeClass p := EncodeTable_sizeClass_eq_model p hp
+example : Generated.RAnsSymbolEncoder.EncodeTable_sizeClass 64 = (none, 1) := by
+  rw [source_tableSizeClass_is_model _ (by decide)]; decide
 
 end C20
 end Draco
